@@ -688,7 +688,7 @@ def limited(seconds, fn, default):
             signal.alarm(max(1, int(remaining - (time.time() - t0))))
 
 
-TARGETS = (sympy.Rational(-5, 2), sympy.Integer(-1), sympy.Integer(0), sympy.Integer(3), sympy.Rational(5, 2), sympy.Integer(1000))
+TARGETS = (sympy.Rational(-5, 2), sympy.Integer(-1), sympy.Integer(0), sympy.Integer(3), sympy.Rational(5, 2), sympy.Integer(60))
 
 
 def target_value_stream(item, ex, specs, plan, rng, pick_branch):
